@@ -8,13 +8,22 @@ PROP = "C09"
 DRIVER_PROP = "C01"
 RULE = ("real ssnet.runonce on both tunnel ends over fake sockets, every micro-step replayed on the extracted model and the full "
         "state of both ends compared after every iteration; cases: buffer sizes 1..32768 with bulk transfers on 1-4 flows, latency control on and off, acknowledgements delayed by the scheduler; a case is non-trivial when at least one flow was "
-        "accepted; distinct by case seed")
+        "accepted; distinct by case seed; plus (implementation only) the real server.main in a child process on a socket pair: k "
+        "round-trip requests delivered to descriptor 0 in ONE segment (just over one read, many small ones, more than two reads' "
+        "worth, one message larger than a read) give k answers without further input, for --latency-buffer-size 1..40000 incl. "
+        "sizes that are no multiple of a block size; 'not answered' is decided when the server has taken every byte off the "
+        "descriptor and sleeps in select()")
 TRUSTED_BASE = sc.STREAM_TB
 ASSUMPTIONS = sc.STREAM_ASSUMPTIONS
 PROFILES = ["latency","latency","bulk","many","noise"]
 
 
 def correspondence(ctx):
+    # the server's end of the ssh channel first: real server.main in a child process, requests delivered in one segment
+    import time
+    t0 = time.time()
+    sc.server_reader_check(ctx, PROP)
+    ctx.extra["tunnel_endpoint_checks_wall_s"] = round(time.time() - t0, 2)
     sc.stream_check(ctx, PROP, PROFILES, 120, 2500)
 
 
